@@ -109,6 +109,7 @@ impl ComposeCommand {
             bytes = print_bytes(&bytes)
                 .context("failed to convert binary wasm output to text")?
                 .into_bytes();
+            bytes.push(b'\n');
         }
 
         match self.output {
@@ -122,10 +123,6 @@ impl ComposeCommand {
                 std::io::stdout()
                     .write_all(&bytes)
                     .context("failed to write to stdout")?;
-
-                if self.wat {
-                    println!();
-                }
             }
         }
 
